@@ -598,6 +598,11 @@ func runC08(w *World, p map[string]int) {
 				return
 			}
 			if _, in := pend[tx.TxHash()]; !in {
+				if rival, loser, found := lostToBlockRival(w, tx); found {
+					// nothing to do with the removal: see the known finding
+					w.Violate("C08.readmitted-transaction-ignored", "%s", readmittedDetail(tx.TxHash(), loser, rival))
+					return
+				}
 				w.Violate("C08.announcement-ignored-after-reimport", "transaction %s, announced again after wallet %s was removed and imported again (all parents confirmed, no rival), is not in the pending set", tx.TxHash(), victim.ID)
 				return
 			}
